@@ -9,7 +9,7 @@ DERIV_FREE = set(problems.DERIV_FREE_LOCAL + [g for g in problems.GLOBAL if "_GN
                  ["NLOPT_GN_MLSL", "NLOPT_GN_MLSL_LDS", "NLOPT_LN_AUGLAG", "NLOPT_LN_AUGLAG_EQ"])
 
 
-DRIVER_MODULES = ["DrvEsch", "DrvIsres", "DrvCrs", "DrvNm", "DrvAuglag", "DrvMlsl", "DrvMma", "E2EEsch", "E2ECrs"]
+DRIVER_MODULES = ["DrvEsch", "DrvIsres", "DrvCrs", "DrvNm", "DrvAuglag", "DrvMlsl", "DrvMma", "E2EEsch", "E2ECrs", "E2ENm", "E2EIsres"]
 
 
 def drv(regex):
